@@ -176,6 +176,7 @@ package parser
 //@ spec isIface(o types.Object) bool = is(underlying(objType(o)), *types.Interface)
 //@
 //@ func (*Parser).findConvergenEntries(p) (r, err)
+//@   props C11
 //@   requires wfP(p)
 //@   effects log, random
 //@   assigns all(ast.CommentGroup.List), all(ast.GenDecl.Doc), all(ast.FuncDecl.Doc), all(ast.TypeSpec.Doc), all(ast.Field.Doc)
@@ -184,6 +185,7 @@ package parser
 //@   ensures {C09} forall(i, 0, len(r), len(r[i].opts.SkipFields) == len(p.opts.SkipFields) && r[i].opts.PreProcess == p.opts.PreProcess && r[i].opts.PostProcess == p.opts.PostProcess)
 //@   ensures {C17} err != nil ==> r == nil
 //@   atcall append: {C17} objName(obj) == intfName || isTarget
+//@   atcall ExtractMatchComments: {C11,C17} isTarget && $arg1 == reNotation
 //@   atcall append: {C17} isIface(obj) && inFile(p, obj)
 //@   atcall append: {C09} opts.ExactCase == toggleAfter(p.opts.ExactCase, notations, option.ValidOpsIntf, len(notations), "case", "case:off")
 //@   atcall append: {C09} opts.Getter == toggleAfter(p.opts.Getter, notations, option.ValidOpsIntf, len(notations), "getter", "getter:off")
